@@ -21,6 +21,8 @@ BASE_URL = real.BASE_URL
 KNOWN_CRASHES = {
     ('RecursionError', 'resolve_var'): 'var-self-cycle-recursion',
     ('TypeError', '__missing__'): 'var-inherit-on-root-typeerror',
+    ('IndexError', 'src'): 'font-face-src-format-indexerror',
+    ('IndexError', 'system'): 'counter-style-system-empty-indexerror',
 }
 FUEL = 120
 
@@ -442,16 +444,18 @@ def sec_list_style(run):
                 tags=[f'none{sum(1 for w in wire if w[0])}', 'ok' if impl.startswith('ok') else impl])
 
 
-def modelled_raw_case(sec, run, key, cmd, tokens, build, intern, extra_tags=()):
+def modelled_raw_case(sec, run, key, cmd, tokens, build, intern, extra_tags=(), vid=None):
     """Common part of the sections whose wrapped generator is modelled: table from the real raw items."""
     names, items, end = real.raw_of(key, tokens)
     ids = real.tok_ids(tokens)
-    table = real.table_for_raw(key, names, items, ids, intern)
+    table = real.table_for_raw(key, names, items, ids, intern, vid)
     impl = real.expander_out(key, tokens, intern)
     line = build(ids, table)
+    if line is None:
+        return
     sec.add(line, impl, meta={'key': key, 'css': ' '.join(real.tok_text(t) for t in tokens)},
             nontrivial=len(tokens) >= 1 and impl.startswith('ok'),
-            tags=[cmd, 'ok' if impl.startswith('ok') else impl, *extra_tags])
+            tags=[f'{key}:{"ok" if impl.startswith("ok") else impl}', *extra_tags])
 
 
 def sec_small_expanders(run):
@@ -566,6 +570,332 @@ def sec_small_expanders(run):
             return sx.line('text-align', 'text-align', head_atom(tokens), len(tokens),
                            enc(kw) if kw is not None else 'none', 't0', 'justify', 'start', table)
         modelled_raw_case(sec, run, 'text-align', 'text-align', tokens, build, intern)
+
+
+def split_slash_ids(tokens):
+    """[[ids of one '/'-separated part] …] and the parts as token lists."""
+    parts, cur = [], []
+    for t in tokens:
+        if t.type == 'literal' and t.value == '/':
+            parts.append(cur)
+            cur = []
+        else:
+            cur.append(t)
+    parts.append(cur)
+    return parts
+
+
+def flex_vid(value, ids):
+    """Value ids of expand_flex: input tokens by index, synthesised number tokens by value."""
+    if isinstance(value, (list, tuple)):
+        return '+'.join(flex_vid(v, ids) for v in value) or 'e'
+    if id(value) in ids:
+        return ids[id(value)]
+    if value.type == 'number':
+        return 'n:' + sx.atom(Fraction(value.value))
+    return enc(real.tok_text(value))
+
+
+def sec_more_expanders(run):
+    _, utils, _, expanders, properties = real.mods()
+    sec = run.section('more-expanders', 'place-content/items/self, line-clamp, flex, font, grid-row, grid-column, '
+                      'grid-area, grid-template, grid by direct call vs models of their wrapped generators + generic '
+                      'fill; non-trivial = the value is accepted')
+    intern = real.Interner()
+    count = run.n(500, 6000)
+
+    def pick(pool, nmax=4, soup=0.06):
+        n = run.rng.choice(list(range(1, nmax + 1)))
+        atoms = [run.rng.choice(pool) if run.rng.random() > soup else G.soup_atom(run.rng) for _ in range(n)]
+        if run.rng.random() < 0.03:
+            atoms = [run.rng.choice(['inherit', 'initial', 'var(--z)'])]
+        return tokens_of(' '.join(atoms))
+
+    for key in ('place-content', 'place-items', 'place-self'):
+        fn = expanders.EXPANDERS[key].__name__
+        for _ in range(count // 10):
+            tokens = pick(['center', 'start', 'end', 'stretch', 'normal', 'space-between', 'baseline', '1'], 2)
+            if not tokens:
+                continue
+            modelled_raw_case(sec, run, key, 'place', tokens,
+                              lambda ids, table, tokens=tokens, key=key, fn=fn: sx.line(
+                                  'place', enc(fn), enc(key), head_atom(tokens), table), intern)
+
+    clamp_pool = ['none', '1', '2', '3', '0', '-1', '1.5', '2.0', 'auto', '"…"', '"x"', 'foo', '10px', 'NONE', '1e2']
+    for _ in range(count):
+        tokens = pick(clamp_pool, 3)
+        if not tokens:
+            continue
+
+        def build(ids, table, tokens=tokens):
+            wire = [[utils.get_keyword(t) == 'none', t.type == 'number',
+                     (t.int_value if t.type == 'number' and t.int_value is not None else None),
+                     properties.block_ellipsis([t]) is not None, f't{i}'] for i, t in enumerate(tokens)]
+            return sx.line('line-clamp', 'line-clamp', head_atom(tokens), wire, table)
+        modelled_raw_case(sec, run, 'line-clamp', 'line-clamp', tokens, build, intern)
+
+    flex_pool = ['0', '1', '2', '0.5', '3', '-1', '0.0', '10px', '0px', '50%', 'auto', 'content', '2em', 'none', '0%',
+                 'foo', '1e1', 'AUTO']
+    for _ in range(count):
+        tokens = pick(flex_pool, 4)
+        if not tokens or any(t.type in ('number', 'dimension', 'percentage') and not math.isfinite(t.value)
+                             for t in tokens):
+            continue        # 1e999: an infinite flex factor has no rational model
+
+        def build(ids, table, tokens=tokens):
+            wire = []
+            for i, t in enumerate(tokens):
+                factor = properties.flex_grow_shrink([t])
+                if factor is not None and not math.isfinite(factor):
+                    return None       # 1e999: an infinite flex factor has no rational model
+                wire.append([t.type == 'number' and t.int_value == 0, properties.flex_basis([t]) is not None,
+                             Fraction(factor) if factor is not None else None, f't{i}'])
+            return sx.line('flex', 'flex', head_atom(tokens), utils.get_single_keyword(tokens) == 'none', wire, table)
+        modelled_raw_case(sec, run, 'flex', 'flex', tokens, build, intern, vid=flex_vid)
+
+    font_pool = ['normal', 'italic', 'oblique', 'small-caps', 'bold', 'bolder', '400', '700', '1000', 'condensed',
+                 'expanded', '12px', '1.5em', 'large', 'smaller', '80%', '0', '/', '/', '1.2', '20px', 'normal',
+                 'serif', 'Arial', '"Times New Roman"', 'sans-serif', ',', 'caption', 'menu', 'foo', '1', 'NORMAL']
+    for _ in range(count * 2):
+        n = run.rng.choice([1, 2, 2, 3, 3, 4, 5, 6, 7])
+        if run.rng.random() < 0.6:
+            # mostly well-formed: [optional ×0..4] size [/ line-height] family
+            atoms = [run.rng.choice(['normal', 'italic', 'small-caps', 'bold', 'condensed', '700', 'oblique'])
+                     for _ in range(run.rng.choice([0, 0, 1, 2, 3, 4, 5]))]
+            atoms.append(run.rng.choice(['12px', 'large', '80%', '1.5em', 'foo']))
+            if run.rng.random() < 0.4:
+                atoms += ['/', run.rng.choice(['1.2', '20px', 'normal', 'foo'])]
+            atoms += run.rng.choice([['serif'], ['Arial', ',', 'serif'], ['"Times New Roman"'], ['Arial', 'Black'], []])
+        else:
+            atoms = [run.rng.choice(font_pool) for _ in range(n)]
+        tokens = tokens_of(' '.join(atoms))
+        if not tokens:
+            continue
+
+        def build(ids, table, tokens=tokens):
+            wire = []
+            for i, t in enumerate(tokens):
+                one = [t]
+                wire.append([utils.get_keyword(t) == 'normal', properties.font_style(one) is not None,
+                             properties.font_variant_caps(one) is not None, properties.font_weight(one) is not None,
+                             properties.font_stretch(one) is not None, properties.font_size(one) is not None,
+                             t.type == 'literal' and t.value == '/', properties.line_height(one) is not None, f't{i}'])
+            by_len = [properties.font_family(tokens[len(tokens) - k:]) is not None if k else
+                      properties.font_family([]) is not None for k in range(len(tokens) + 1)]
+            system = utils.get_single_keyword(tokens) in ('caption', 'icon', 'menu', 'message-box', 'small-caption',
+                                                          'status-bar')
+            return sx.line('font', 'font', head_atom(tokens), system, wire, by_len, table)
+        modelled_raw_case(sec, run, 'font', 'font', tokens, build, intern)
+
+    line_pool = ['auto', '1', '2', '-1', '0', 'span', 'a', 'foo', 'span', '/', '/', '3', '1.5', 'AUTO']
+    for key in ('grid-row', 'grid-column', 'grid-area'):
+        fn = expanders.EXPANDERS[key].__name__
+        for _ in range(count):
+            if run.rng.random() < 0.6:
+                parts = [run.rng.choice(['auto', '1', '2', 'a', 'span 2', 'span a', 'a 2', '-1', 'span a 3', 'foo', '0',
+                                         'span', 'auto 1', ''])
+                         for _ in range(run.rng.choice([1, 1, 2, 2, 3, 4, 5]))]
+                tokens = tokens_of(' / '.join(parts))
+            else:
+                tokens = pick(line_pool, 7, soup=0.03)
+            if not tokens:
+                continue
+
+            def build(ids, table, tokens=tokens, key=key, fn=fn):
+                lines = []
+                for part in split_slash_ids(tokens):
+                    validation = properties.grid_line(part)
+                    custom = bool(validation) and set(validation[:2]) == {None}
+                    lines.append([bool(validation), custom, [ids[id(t)] for t in part]])
+                return sx.line('grid-lines', enc(fn), enc(key), head_atom(tokens), lines, table)
+            modelled_raw_case(sec, run, key, 'grid-lines', tokens, build, intern)
+
+    track_pool = ['none', 'auto', '10px', '1fr', '50%', 'min-content', 'repeat(2, 1fr)', 'minmax(1px, 1fr)', '[a]',
+                  '/', '/', 'dense', 'auto-flow', 'subgrid', 'foo', '"a b"', '0']
+    for key in ('grid-template', 'grid'):
+        for _ in range(count):
+            r = run.rng.random()
+            tracks = lambda: ' '.join(run.rng.choice(['auto', '10px', '1fr', '50%', 'min-content', 'repeat(2, 1fr)',   # noqa: E731
+                                                      'minmax(1px, 1fr)', '[a]', 'none', 'foo'])
+                                      for _ in range(run.rng.choice([1, 1, 2, 3])))
+            if r < 0.35:
+                tokens = tokens_of(f'{tracks()} / {tracks()}')
+            elif r < 0.65 and key == 'grid':
+                flow = run.rng.choice(['auto-flow', 'auto-flow dense', 'dense auto-flow', 'dense', 'auto-flow auto-flow'])
+                side = run.rng.choice(['10px', '1fr', '', 'auto', '10px 20px'])
+                other = run.rng.choice(['10px', 'none', '1fr 2fr', 'auto-flow', ''])
+                text = f'{flow} {side} / {other}' if run.rng.random() < 0.5 else f'{other} / {flow} {side}'
+                tokens = tokens_of(text)
+            elif r < 0.7:
+                tokens = tokens_of('none')
+            else:
+                tokens = pick(track_pool, 6, soup=0.03)
+            if not tokens:
+                continue
+
+            def build(ids, table, tokens=tokens, key=key):
+                parts = split_slash_ids(tokens)
+                wire_parts = [[bool(properties.grid_template(part)), [ids[id(t)] for t in part]] for part in parts]
+                single_none = len(tokens) == 1 and utils.get_keyword(tokens[0]) == 'none'
+                if key == 'grid-template':
+                    return sx.line('grid-template', enc(key), head_atom(tokens), single_none, wire_parts, table)
+                sides = [[[utils.get_keyword(t) == 'dense', utils.get_keyword(t) == 'auto-flow', bool(t == part[-1]),
+                           ids[id(t)]] for t in part] for part in parts]
+                return sx.line('grid', enc(key), head_atom(tokens), single_none, wire_parts, sides, table)
+            modelled_raw_case(sec, run, key, key, tokens, build, intern)
+
+
+def sec_border_image(run):
+    """border-image / mask-border: the loop over multi-token sub-grammars, validators as oracles on token slices."""
+    _, utils, _, expanders, properties = real.mods()
+    sec = run.section('border-image', 'border-image and mask-border by direct call vs the model of their parsing loop '
+                      '(source / mode / repeat / slice [/ width [/ outset]]), every validator answer on every token '
+                      'slice supplied by the real validators; non-trivial = the value is accepted')
+    intern = real.Interner()
+    pool = ['url(a.png)', 'none', 'linear-gradient(red, blue)', 'stretch', 'repeat', 'round', 'space', '10', '20%', '30',
+            'fill', '1', '/', '/', '2px', '10%', 'auto', '3', '0', 'alpha', 'luminance', 'foo', '-1', '5px']
+    for key in ('border-image', 'mask-border'):
+        fn = expanders.EXPANDERS[key].__name__
+        for _ in range(run.n(500, 6000)):
+            if run.rng.random() < 0.5:
+                parts = [run.rng.choice(['10', '10 20%', '10 20 30 40', 'fill 10', '10 fill', '10 20 30 40 50'])]
+                if run.rng.random() < 0.7:
+                    parts.append('/ ' + run.rng.choice(['2px', '1 2', 'auto 10%', '1 2 3 4', '', 'foo']))
+                    if run.rng.random() < 0.5:
+                        parts.append('/ ' + run.rng.choice(['1', '2px 3', '1 2 3 4', '', 'foo']))
+                extra = [run.rng.choice(['url(a.png)', 'stretch', 'round space', 'alpha', 'none', ''])
+                         for _ in range(run.rng.choice([0, 1, 2]))]
+                pieces = parts + extra
+                if run.rng.random() < 0.5:
+                    pieces = extra + parts
+                tokens = tokens_of(' '.join(pieces))
+            else:
+                tokens = tokens_of(' '.join(run.rng.choice(pool) for _ in range(run.rng.choice([1, 2, 3, 4, 5, 6]))))
+            if not tokens or len(tokens) > 12:
+                continue
+
+            def build(ids, table, tokens=tokens, key=key, fn=fn):
+                n = len(tokens)
+                one = lambda f, *a: [bool(f([t], *a)) for t in tokens]     # noqa: E731
+                pairs = lambda f: [[i, j] for i in range(n) for j in range(i + 1, n + 1) if f(tokens[i:j])]  # noqa: E731
+                return sx.line(
+                    'border-image', enc(fn), enc(key), head_atom(tokens), key == 'mask-border', n,
+                    one(properties.border_image_source, BASE_URL), one(properties.mask_border_mode),
+                    one(properties.border_image_repeat), [utils.get_keyword(t) == 'fill' for t in tokens],
+                    [t.type == 'literal' and t.value == '/' for t in tokens], pairs(properties.border_image_slice),
+                    pairs(properties.border_image_width), pairs(properties.border_image_outset), table)
+            modelled_raw_case(sec, run, key, key, tokens, build, intern)
+
+
+def sec_background(run):
+    """expand_background: layers, the stack loop of parse_layer, position / size slices, origin / clip."""
+    from weasyprint.css.properties import INITIAL_VALUES
+    _, utils, _, expanders, properties = real.mods()
+    sec = run.section('background', 'the background shorthand by direct call vs the model of parse_layer (every '
+                      'validator answer on every token / slice given by the real single_value validators) and of the '
+                      'layer assembly; non-trivial = accepted')
+    intern = real.Interner()
+    names = ['background-color', 'background-image', 'background-repeat', 'background-attachment',
+             'background-position', 'background-size', 'background-clip', 'background-origin']
+    pool = ['red', '#00f', 'url(a.png)', 'none', 'linear-gradient(red, blue)', 'no-repeat', 'repeat-x', 'repeat', 'space',
+            'round', 'fixed', 'scroll', 'local', '0', '10px', '50%', 'left', 'top', 'center', 'right', 'bottom', '/', '/',
+            'cover', 'contain', 'auto', '20px', 'border-box', 'padding-box', 'content-box', ',', 'foo', 'transparent']
+
+    def atom(value):
+        return 'none' if value is None else intern(value)
+    for _ in range(run.n(1200, 15000)):
+        if run.rng.random() < 0.5:
+            layer = lambda final: ' '.join(run.rng.sample(          # noqa: E731
+                [run.rng.choice(['url(a.png)', 'none', 'linear-gradient(red, blue)']),
+                 run.rng.choice(['no-repeat', 'repeat-x', 'space round', 'repeat no-repeat']),
+                 run.rng.choice(['fixed', 'local']),
+                 run.rng.choice(['left top', '10px 20px', 'center', '50%', 'right 10px bottom 5px', 'left 10px top',
+                                 '0 0 / cover', 'center / 10px 20px', '10px / auto', 'top / contain', '0 0 /']),
+                 run.rng.choice(['border-box', 'padding-box content-box']),
+                 *(['red'] if final and run.rng.random() < 0.6 else [])], run.rng.choice([1, 2, 3, 4])))
+            k = run.rng.choice([1, 1, 2, 3])
+            text = ', '.join(layer(i == k - 1) for i in range(k))
+        else:
+            text = ' '.join(run.rng.choice(pool) for _ in range(run.rng.choice([1, 2, 3, 4, 5, 6])))
+        if run.rng.random() < 0.03:
+            text = run.rng.choice(['inherit', 'initial', 'var(--b)', 'red var(--b)'])
+        tokens = tokens_of(text)
+        if not tokens:
+            continue
+        kind, result, exc = real.outcome_list(lambda: expanders.EXPANDERS['background'](tuple(tokens), 'background',
+                                                                                   BASE_URL))
+        if kind == 'ok':
+            parts = []
+            for name, value in result:
+                if real.canon(value) in ('kw:inherit', 'kw:initial', 'pending'):
+                    parts.append(f' ({name} {real.canon(value)})')
+                elif name == 'background-color':
+                    parts.append(f' ({name} {intern(value)})')
+                else:
+                    parts.append(f' ({name}' + ''.join(f' {intern(v)}' for v in value) + ')')
+            impl = 'ok' + ''.join(parts)
+        else:
+            impl = result
+        layers = []
+        try:
+            for part in utils.split_on_comma(tokens):
+                n = len(part)
+                one = lambda f, *a: [atom(f(part[i:i + 1], *a)) for i in range(n)]     # noqa: E731
+                layers.append([
+                    n, [atom(properties.background_repeat.single_value(part[i:i + 2])) for i in range(n)],
+                    one(properties.background_repeat.single_value), one(properties.other_colors),
+                    one(properties.background_image.single_value, BASE_URL),
+                    one(properties.background_attachment.single_value),
+                    [[i, ln, intern(v)] for i in range(n) for ln in (1, 2, 3, 4) if i + ln <= n
+                     for v in [properties.background_position.single_value(part[i:i + ln])] if v is not None],
+                    [[i, ln, intern(v)] for i in range(n + 1) for ln in (0, 1, 2)
+                     for v in [properties.background_size.single_value(part[i:i + ln])] if v is not None],
+                    one(properties.box.single_value), [t.type == 'literal' and t.value == '/' for t in part]])
+        except Exception:  # noqa: BLE001 - a validator crashed on a slice: the funnel section reports such values
+            continue
+        initials = [[n, intern(INITIAL_VALUES[n.replace('-', '_')] if n == 'background-color'
+                               else INITIAL_VALUES[n.replace('-', '_')][0])] for n in names]
+        sec.add(sx.line('background', head_atom(tokens), layers, initials), impl, meta={'key': 'background', 'css': text},
+                nontrivial=impl.startswith('ok'),
+                tags=['ok' if impl.startswith('ok') else impl, f'layers{min(len(layers), 3)}'])
+
+
+def sec_pending_expander(run):
+    """A shorthand containing var(): PendingExpander.solve on the substituted tokens, per longhand."""
+    _, utils, _, expanders, properties = real.mods()
+    sec = run.section('pending-expander', 'every shorthand with var(): the real PendingExpander.validate of each '
+                      'longhand on substituted tokens vs the model fed with the items of the real registered expander '
+                      '(lazy iteration: first match wins); non-trivial = the substituted value is invalid for some '
+                      'longhand but not for all')
+    intern = real.Interner()
+    var_tokens = tuple(tokens_of('var(--v)'))
+    for key in sorted(expanders.EXPANDERS):
+        kind, pending, _ = real.outcome_list(lambda: expanders.EXPANDERS[key](var_tokens, key, BASE_URL))
+        if kind != 'ok':
+            continue
+        for _ in range(run.n(12, 150)):
+            text = value_for(run, key, ('own', 'own', 'own', 'own', 'near', 'other'))
+            tokens = tuple(tokens_of(text))
+            if not tokens or real.has_var(tokens):
+                continue
+            outcomes = []
+            for long_name, pend in pending:
+                if not isinstance(pend, utils.Pending):
+                    continue
+                items, end = real.run_generator(lambda: pend.validator(tokens))
+                try:
+                    value = pend.validate(tokens, long_name)
+                    impl = f'ok {intern(value)}'
+                except Exception as exc:  # noqa: BLE001
+                    impl = real.fail_atom(exc)
+                outcomes.append(impl)
+                wire_items = [[enc(k), intern(v)] for k, v in items]
+                sec.add(sx.line('pending-expander', enc(pend.validator.keywords['name']), enc(long_name), wire_items,
+                                end or 'none'), impl, meta={'key': key, 'css': text, 'longhand': long_name},
+                        nontrivial=False, tags=[impl.split(' ')[0]])
+            if outcomes and any(o.startswith('ok') for o in outcomes) and any(o == 'invalid' for o in outcomes):
+                sec.tags['partially-applied'] += 1
+
 
 
 def sec_vns(run):
@@ -935,9 +1265,466 @@ def judge_pending(meta):
     return None
 
 
+
+def sec_descriptors(run):
+    """@font-face / @counter-style descriptor blocks through the real preprocess_descriptors, and font-variant."""
+    import tinycss2
+    from weasyprint.css.validation import descriptors
+    _, utils, _, expanders, properties = real.mods()
+    sec = run.section('descriptor-funnel', 'real preprocess_descriptors on generated @font-face / @counter-style blocks '
+                      '(every registered descriptor x own values / foreign values / token soup, unknown and upper-case '
+                      'names, !important, font-display) vs the model funnel fed with each descriptor validated alone; '
+                      'any exception other than InvalidValues breaks the model assumption; non-trivial = one kept, '
+                      'one dropped')
+    intern = real.Interner()
+    own = {
+        'font-family': ['x', '"My Font"', 'a b', '1'], 'src': ['url(a.woff)', 'local(x)', 'url(a.woff) format("woff")',
+                                                               'local("x"), url(b.ttf)', 'format("woff")', 'local()'],
+        'font-style': ['normal', 'italic', 'oblique'], 'font-weight': ['normal', 'bold', '400', '1000'],
+        'font-stretch': ['condensed', 'normal'], 'font-feature-settings': ['"liga" 1', 'normal', '"ab"'],
+        'font-variant': ['normal', 'none', 'small-caps', 'small-caps oldstyle-nums', 'normal small-caps'],
+        'unicode-range': ['U+26', 'U+0-7F', 'U+4??'], 'system': ['cyclic', 'fixed 3', 'extends decimal', 'additive'],
+        'negative': ['"-"', '"(" ")"'], 'prefix': ['"a"', 'url(x)'], 'suffix': ['"."'], 'range': ['auto', '1 5', 'infinite 3',
+                                                                                               '5 1'],
+        'pad': ['3 "0"', '"0" 3', '-1 "0"'], 'fallback': ['decimal', 'none'], 'symbols': ['"a" "b"', 'a b', 'url(x)'],
+        'additive-symbols': ['5 "V", 1 "I"', '1 "I", 5 "V"', '0 "Z"'],
+    }
+    known = {}
+    for rule in sorted(descriptors.DESCRIPTORS):
+        names = sorted(descriptors.DESCRIPTORS[rule])
+        for _ in range(run.n(400, 6000)):
+            parts = []
+            for _ in range(run.rng.choice([1, 1, 2, 3, 4])):
+                r = run.rng.random()
+                name = run.rng.choice(names)
+                if r < 0.55:
+                    value = run.rng.choice(own.get(name, ['x']))
+                elif r < 0.75:
+                    value = run.rng.choice(own[run.rng.choice(sorted(own))])
+                else:
+                    value = G.value_text(run.rng, 'width', 'soup')
+                written = name if run.rng.random() < 0.85 else run.rng.choice(
+                    [name.upper(), 'font-display', 'unknown-desc', '--x', 'color'])
+                parts.append(f'{written}: {value}{" !important" if run.rng.random() < 0.05 else ""}')
+            if run.rng.random() < 0.1:
+                parts.insert(run.rng.randrange(len(parts) + 1), run.rng.choice(['@foo;', 'a { b: c }', '!', '']))
+            text = '; '.join(parts)
+            decls = tinycss2.parse_blocks_contents(text)
+            kind, result, exc = real.outcome_list(lambda: descriptors.preprocess_descriptors(rule, BASE_URL, decls))
+            finding = known_crash(exc) if exc is not None else None
+            if finding:
+                known[finding] = known.get(finding, 0) + 1
+                continue
+            impl = 'ok' + ''.join(f' ({enc(n)} {intern(v)})' for n, v in result) if kind == 'ok' else result
+            items = []
+            for d in decls:
+                if d.type != 'declaration':
+                    items.append([d.type, 'x', False, 'none'])
+                    continue
+                res = 'none'
+                function = descriptors.DESCRIPTORS[rule].get(d.name)
+                if function is not None:
+                    tokens = utils.remove_whitespace(d.value)
+                    try:
+                        value = function(tokens, BASE_URL) if function.wants_base_url else function(tokens)
+                        res = ['ok', intern(value)] if value is not None else 'none'
+                    except utils.InvalidValues:
+                        res = 'invalid'
+                    except Exception:  # noqa: BLE001 - the model assumes this never happens
+                        res = 'err:AssumptionBroken'
+                items.append(['declaration', enc(d.name), bool(d.important), res])
+            sec.add(sx.line('descriptors', enc(rule), items), impl, meta={'rule': rule, 'css': text},
+                    nontrivial=impl.count('(') > 0 and len(items) > impl.count('('),
+                    tags=[rule, 'raised' if impl.startswith('err') else 'kept' if '(' in impl else 'all-dropped'])
+    run.extra['known_crashes_skipped_in_descriptors'] = known
+    # font-variant: its wrapped generator lives in descriptors.py
+    variant_pool = ['normal', 'none', 'small-caps', 'all-small-caps', 'oldstyle-nums', 'lining-nums', 'sub', 'super',
+                    'jis78', 'ruby', 'common-ligatures', 'no-contextual', 'historical-forms', 'slashed-zero', 'foo',
+                    '1', 'NORMAL', 'titling-caps']
+    for _ in range(run.n(400, 5000)):
+        n = run.rng.choice([1, 1, 2, 2, 3, 4])
+        atoms = [run.rng.choice(variant_pool) if run.rng.random() < 0.93 else G.soup_atom(run.rng) for _ in range(n)]
+        if run.rng.random() < 0.03:
+            atoms = [run.rng.choice(['inherit', 'initial', 'var(--z)'])]
+        tokens = tokens_of(' '.join(atoms))
+        if not tokens:
+            continue
+
+        def build(ids, table, tokens=tokens):
+            wire = []
+            for i, t in enumerate(tokens):
+                feature = None
+                for f in ('alternates', 'caps', 'east-asian', 'ligatures', 'numeric', 'position'):
+                    if getattr(properties, f'font_variant_{f.replace("-", "_")}')([t]):
+                        feature = f
+                        break
+                wire.append([utils.get_keyword(t) == 'normal', enc(feature) if feature else 'none', f't{i}'])
+            kw = utils.get_single_keyword(tokens)
+            return sx.line('font-variant', 'font-variant', head_atom(tokens), 'i:' + enc(kw) if kw is not None else 'x',
+                           wire, table)
+        modelled_raw_case(sec, run, 'font-variant', 'font-variant', tokens, build, intern)
+
+
+def judge_descriptors(meta):
+    import tinycss2
+    from weasyprint.css.validation import descriptors
+    decls = tinycss2.parse_blocks_contents(meta['css'])
+    kind, result, exc = real.outcome_list(lambda: descriptors.preprocess_descriptors(meta['rule'], BASE_URL, decls))
+    if kind != 'ok':
+        if known_crash(exc):
+            return None
+        cls, fn = real.innermost(exc)
+        return (f'preprocess_descriptors raised {cls} (in {fn}) on `@{meta["rule"]} {{ {meta["css"]} }}`: a malformed '
+                f'descriptor aborts the stylesheet')
+    singles = []
+    for d in decls:
+        k1, r1, _ = real.outcome_list(lambda: descriptors.preprocess_descriptors(meta['rule'], BASE_URL, [d]))
+        if k1 != 'ok':
+            return f'preprocess_descriptors raised on one descriptor of `{meta["css"]}`'
+        singles += r1
+    if [real.canon(x) for x in singles] != [real.canon(x) for x in result]:
+        return f'descriptors of `{meta["css"]}` are not validated independently of their neighbours'
+    return None
+
+
+
+def sec_keywords(run):
+    """The keyword-only validators: table regenerated from the source (AST) vs the registered functions."""
+    _, utils, _, _, properties = real.mods()
+    table, inventory, _ = c07_tables.ast_keyword_validators()
+    sec = run.section('keyword-validators', 'the keyword-only longhand validators (50 at HEAD): AST-generated table + models of '
+                      'single_keyword / comma_separated_list vs the registered PROPERTIES functions, on every keyword of '
+                      'every table, case variants, several tokens, comma lists, non-identifiers; exhaustive over '
+                      '(property, keyword of any table); non-trivial = accepted')
+    all_keywords = sorted({kw for _, kws, _ in table for kw in kws})
+    extras = ['1', '0', '10px', '"s"', 'red', 'f(x)', '[a]', ',', '/', 'inherit', 'auto', 'none', 'foo']
+    for name, keywords, comma in table:
+        texts = list(all_keywords) + [kw.upper() for kw in keywords] + [kw.capitalize() for kw in keywords[:2]] + extras
+        for _ in range(run.n(12, 60)):
+            a, b = run.rng.choice(keywords), run.rng.choice(all_keywords + extras)
+            texts.append(run.rng.choice([f'{a} {b}', f'{a}, {b}', f'{a},{a}', f'{a}, , {b}', f', {a}', f'{a},',
+                                         f'{a} /**/', f'{a} , {a} , {a}', f'{a} {a}, {a}']))
+        for text in texts:
+            tokens = tokens_of(text)
+            if not tokens:
+                continue
+            try:
+                got = properties.PROPERTIES[name](tokens)
+                impl = 'invalid' if got is None else 'ok ' + ' '.join(
+                    enc(k) for k in (got if isinstance(got, tuple) else (got,)))
+            except Exception as exc:  # noqa: BLE001
+                impl = real.fail_atom(exc)
+            parts = [[('i:' + enc(t.lower_value) if t.type == 'ident' else 'x') for t in part]
+                     for part in utils.split_on_comma(tokens)]
+            sec.add(sx.line('keyword-validator', enc(name), parts), impl, meta={'name': name, 'css': text},
+                    nontrivial=impl.startswith('ok'),
+                    tags=['comma-list' if comma else 'single', impl.split(' ')[0]])
+    run.extra['validator_inventory'] = {
+        'functions': len(inventory),
+        'single_keyword': sum(1 for _, k, _, _, _ in inventory if k == 'single_keyword'),
+        'single_token': sum(1 for _, k, _, _, _ in inventory if k == 'single_token'),
+        'tokens': sum(1 for _, k, _, _, _ in inventory if k == 'tokens'),
+        'properties_mirrored_by_keyword_table': len(table),
+        'properties_registered': len(properties.PROPERTIES),
+        'not_mirrored_functions': [f for f, _, _, _, m in inventory if not m][:100],
+    }
+
+
+# --------------------------------------------------------------------------------- the rule-level funnel
+
+SHEET_URL = 'http://c07.test/imp/'
+
+
+class RecordingMatcher:
+    """Stands for cssselect2.Matcher in CSS(...): records what preprocess_stylesheet adds."""
+
+    def __init__(self):
+        self.events = []
+        self.counts = {}
+
+    def add_selector(self, selector, declarations):
+        rid = rule_id(declarations)
+        index = self.counts.get(rid, 0)
+        self.counts[rid] = index + 1
+        self.events.append(f'(sel {rid} {index})')
+
+
+def rule_id(declarations):
+    for name, value, _ in declarations:
+        if name == '__id':
+            return int(value[0].value)
+    return 0
+
+
+def real_sheet_events(text, imports, failing=()):
+    """Events of the real CSS(string=text) with a recording matcher; imported sheets served from `imports`."""
+    from weasyprint import CSS
+    from weasyprint.text.fonts import FontConfiguration  # noqa: F401 - font_config stays None
+
+    def fetcher(url):
+        name = url[len(SHEET_URL):] if url.startswith(SHEET_URL) else None
+        if name in imports and name not in failing:
+            return {'string': imports[name], 'mime_type': 'text/css', 'encoding': 'utf-8', 'redirected_url': url}
+        raise ValueError(f'no such sheet {url}')
+    matcher, page_rules = RecordingMatcher(), []
+    try:
+        CSS(string=text, base_url=SHEET_URL, url_fetcher=fetcher, media_type='print', matcher=matcher,
+            page_rules=page_rules, counter_style={})
+    except RecursionError as exc:
+        return 'err:RecursionError', exc
+    except Exception as exc:  # noqa: BLE001
+        return f'err:{type(exc).__name__}', exc
+    # page rules were appended in order, interleaved with the matcher events only across rules: rebuild the order
+    return matcher, page_rules
+
+
+def sheet_rule_text(rng, next_id, depth, imports, failing):
+    """(css text of one rule, ids used)"""
+    r = rng.random()
+    rid = next_id[0]
+    next_id[0] += 1
+    decls = lambda: (f'--id: {rid}; color: red' if rng.random() < 0.8 else     # noqa: E731
+                     rng.choice(['colour: red', 'width: red', '', 'cursor: pointer']))
+    if r < 0.34:
+        sels = []
+        for _ in range(rng.choice([1, 1, 2, 3])):
+            sels.append(rng.choice(['p', '.c', 'div > p', 'li::before', 'p::after', 'a::foo', 'b::-webkit-x',
+                                    'i:hover', 'p::first-line', 'q::marker', '*', 'p::selection', 'input::placeholder',
+                                    'li:after']))
+        if rng.random() < 0.12:
+            sels[rng.randrange(len(sels))] = rng.choice(['p >', '::', 'a:nosuch(', '.', 'p:unknown-pseudo', '!'])
+        return f'{", ".join(sels)} {{ {decls()} }}'
+    if r < 0.44:
+        name = f's{rid}.css'
+        inner = [sheet_rule_text(rng, next_id, depth + 1, imports, failing)
+                 for _ in range(rng.choice([1, 2]))] if depth < 2 else []
+        imports[name] = '\n'.join(inner)
+        if rng.random() < 0.15:
+            failing.add(name)
+        form = rng.choice([f'"{name}"', f'url({name})', f'url("{name}")', f'"{name}" print', f'"{name}" screen',
+                           f'"{name}" all', f'"{name}" !!', 'foo', '', f'url(#frag)', f'"{name}" print, screen'])
+        return f'@import {form};'
+    if r < 0.56 and depth < 2:
+        inner = ' '.join(sheet_rule_text(rng, next_id, depth + 1, imports, failing)
+                         for _ in range(rng.choice([1, 2, 3])))
+        query = rng.choice(['print', 'screen', 'all', 'print, screen', '!!', '(min-width: 10px)', 'not print', ''])
+        return f'@media {query} {{ {inner} }}'
+    if r < 0.70:
+        sel = rng.choice(['', ':first', ':left', 'name', 'name:first', ':first, :left', ':nth(2)', ':unknown',
+                          'a b', ':first :left', ':blank'])
+        margins = ' '.join(
+            f'@{rng.choice(["top-left", "bottom-center", "TOP-RIGHT", "foo"])} {{ {decls()} }}'
+            for _ in range(rng.choice([0, 0, 1, 2])))
+        extra = rng.choice(['', '@top-left;', 'p { color: red }'])
+        return f'@page {sel} {{ {decls()}; {margins} {extra} }}'
+    if r < 0.75:
+        return rng.choice(['@font-face { font-family: x; src: url(f.woff) }', '@font-face { }'])
+    if r < 0.81:
+        return rng.choice(['@counter-style cs { system: cyclic; symbols: "a" }', '@counter-style none { }',
+                           '@counter-style decimal { }', '@counter-style { }', '@counter-style a b { }'])
+    if r < 0.90:
+        return rng.choice(['@supports (display: grid) { p { color: red } }', '@keyframes k { from { top: 0 } }',
+                           '@foo { bar: baz }', '@namespace svg "http://x";', '@foo;', '@charset "utf-8";',
+                           '@media;', '@page;'])
+    return rng.choice(['}', 'p', '{ color: red }', '/* c */', 'p { color: red', ';', '<!--', '-->', ')', '@'])
+
+
+def sheet_model_rules(text):
+    """The stylesheet as the `Wp.Sheet.Rule` trees of the model: every answer comes from the real helpers."""
+    import cssselect2
+    import tinycss2
+    from weasyprint.css import PSEUDO_ELEMENTS, counters, media_queries, parse_page_selectors
+    from weasyprint.css.utils import get_url, remove_whitespace
+    from weasyprint.css.validation import preprocess_declarations
+    from weasyprint.urls import url_join
+    rules = []
+    for rule in (tinycss2.parse_stylesheet(text) if isinstance(text, str) else text):
+        if getattr(rule, 'content', None) is None and not (
+                rule.type == 'at-rule' and rule.lower_at_keyword == 'import'):
+            rules.append('nc')
+        elif rule.type == 'qualified-rule':
+            contents = tinycss2.parse_blocks_contents(rule.content)
+            try:
+                pairs = list(preprocess_declarations(SHEET_URL, contents, rule.prelude))
+            except cssselect2.SelectorError:
+                rules.append(['style', 0, False, [], False])
+                continue
+            selectors = cssselect2.compile_selector_list(rule.prelude)
+            rid = rule_id([d for _, d in pairs]) if pairs else 0
+            rules.append(['style', max(rid, 0), True, [s.pseudo_element in PSEUDO_ELEMENTS for s in selectors],
+                          bool(pairs)])
+        elif rule.type == 'at-rule' and rule.lower_at_keyword == 'import':
+            tokens = remove_whitespace(rule.prelude)
+            url = None
+            if tokens:
+                if tokens[0].type == 'string':
+                    url = url_join(SHEET_URL, tokens[0].value, allow_relative=False, context='', context_args=())
+                else:
+                    url_tuple = get_url(tokens[0], SHEET_URL)
+                    if url_tuple and url_tuple[1][0] == 'external':
+                        url = url_tuple[1][1]
+            usable = False
+            if url is not None:
+                media = media_queries.parse_media_query(tokens[1:])
+                usable = media is not None and bool(media_queries.evaluate_media_query(media, 'print'))
+            rules.append(['import', usable, url])
+        elif rule.type == 'at-rule' and rule.lower_at_keyword == 'media':
+            media = media_queries.parse_media_query(rule.prelude)
+            query = None if media is None else bool(media_queries.evaluate_media_query(media, 'print'))
+            rules.append(['media', query, sheet_model_rules(tinycss2.parse_rule_list(rule.content))])
+        elif rule.type == 'at-rule' and rule.lower_at_keyword == 'page':
+            data = parse_page_selectors(rule)
+            content = tinycss2.parse_blocks_contents(rule.content)
+            decls = list(preprocess_declarations(SHEET_URL, content))
+            margins = []
+            for margin_rule in content:
+                if margin_rule.type != 'at-rule' or margin_rule.content is None:
+                    continue
+                mdecls = list(preprocess_declarations(
+                    SHEET_URL, tinycss2.parse_blocks_contents(margin_rule.content)))
+                margins.append([enc('@' + margin_rule.lower_at_keyword), bool(mdecls)])
+            rid = max([rule_id(decls)] + [rule_id(list(preprocess_declarations(
+                SHEET_URL, tinycss2.parse_blocks_contents(m.content)))) for m in content
+                if m.type == 'at-rule' and m.content is not None] + [0])
+            rules.append(['page', rid, None if data is None else len(data), bool(decls), margins])
+        elif rule.type == 'at-rule' and rule.lower_at_keyword == 'font-face':
+            rules.append('fontface')
+        elif rule.type == 'at-rule' and rule.lower_at_keyword == 'counter-style':
+            rules.append(['counter', counters.parse_counter_style_name(rule.prelude, {}) is not None])
+        else:
+            rules.append('other')
+    return rules
+
+
+def resolve_imports(rules, imports, failing):
+    """Replace ['import', usable, url] by the model's import rule with the imported sheet's rules."""
+    out = []
+    for rule in rules:
+        if isinstance(rule, list) and rule[0] == 'import':
+            _, usable, url = rule
+            name = url[len(SHEET_URL):] if url and url.startswith(SHEET_URL) else None
+            fetched = name in imports and name not in failing
+            inner = resolve_imports(sheet_model_rules(imports[name]), imports, failing) if fetched and usable else []
+            out.append(['import', usable, fetched, inner])
+        elif isinstance(rule, list) and rule[0] == 'media':
+            out.append(['media', rule[1], resolve_imports(rule[2], imports, failing)])
+        else:
+            out.append(rule)
+    return out
+
+
+def real_events_text(text, imports, failing):
+    got = real_sheet_events(text, imports, failing)
+    if isinstance(got[0], str):
+        return got[0], got[1]
+    matcher, page_rules = got
+    return (matcher.events, [(f'(page {rule_id(d)})' if sl[0][1] is None else
+                              f'(margin {rule_id(d)} {enc(sl[0][1])})') for _, sl, d in page_rules]), None
+
+
+def sec_sheet(run):
+    sec = run.section('sheet-funnel', 'real CSS(string=...) -> preprocess_stylesheet with a recording matcher on generated '
+                      'stylesheets (style rules with valid / invalid selectors and unknown pseudo-elements, @import in '
+                      'and out of place with working / failing fetches, @media, @page with margin rules, @font-face, '
+                      '@counter-style, unknown at-rules, parse errors) vs the model of the rule loop and its '
+                      'ignore_imports state; non-trivial = at least one rule ignored and one kept')
+    rng = run.rng
+    for _ in range(run.n(400, 8000)):
+        imports, failing, next_id = {}, set(), [1]
+        parts = [sheet_rule_text(rng, next_id, 0, imports, failing) for _ in range(rng.choice([1, 2, 3, 4, 5, 6]))]
+        # a trailing @import makes the final value of ignore_imports observable
+        imports['probe.css'] = 'p { --id: 9999; color: red }'
+        parts.append('@import "probe.css";')
+        text = '\n'.join(parts)
+        import tinycss2
+        if any(has_nested_style_rule(tinycss2.parse_stylesheet(t)) for t in [text, *imports.values()]):
+            continue
+        got, exc = real_events_text(text, imports, failing)
+        try:
+            rules = resolve_imports(sheet_model_rules(text), imports, failing)
+        except Exception:  # noqa: BLE001 - a helper crashed on its own: the real run above shows it
+            continue
+        if exc is not None:
+            impl = got
+        else:
+            sel_events, page_events = got
+            impl = 'ok' + ''.join(f' {e}' for e in sel_events) + ' |' + ''.join(f' {e}' for e in page_events)
+        sec.add(sx.line('sheet', False, rules), impl, meta={'css': text, 'imports': imports, 'failing': sorted(failing)},
+                nontrivial=impl.count('(') > 0 and ('nc' in rules or 'other' in rules),
+                tags=['raised' if impl.startswith('err') else 'probe-imported' if '9999' in impl else 'probe-ignored',
+                      *sorted(sheet_rule_tags(rules, False))])
+
+
+def has_nested_style_rule(rules):
+    """A qualified rule inside a qualified rule (CSS nesting): not modelled at rule level."""
+    import tinycss2
+    for rule in rules:
+        if rule.type == 'qualified-rule':
+            if any(c.type == 'qualified-rule' for c in tinycss2.parse_blocks_contents(rule.content)):
+                return True
+        elif rule.type == 'at-rule' and rule.lower_at_keyword == 'media' and rule.content is not None:
+            if has_nested_style_rule(tinycss2.parse_rule_list(rule.content)):
+                return True
+    return False
+
+
+def sheet_rule_tags(rules, nested):
+    """Which branches of the model's rule loop a generated sheet reaches."""
+    out = set()
+    for rule in rules:
+        if rule == 'nc':
+            out.add('rule:no-content')
+        elif rule == 'fontface':
+            out.add('rule:font-face')
+        elif rule == 'other':
+            out.add('rule:other-at')
+        elif rule[0] == 'counter':
+            out.add('rule:counter-style-ok' if rule[1] else 'rule:counter-style-bad-name')
+        elif rule[0] == 'style':
+            _, _, ok, pseudo, decls = rule
+            out.add('rule:style-bad-selector' if not ok else 'rule:style-no-declaration' if not decls else
+                    'rule:style-unknown-pseudo' if not all(pseudo) else 'rule:style-ok')
+        elif rule[0] == 'import':
+            _, usable, fetched, inner = rule
+            out.add('rule:import-unusable' if not usable else 'rule:import-fetch-failed' if not fetched else
+                    'rule:import-ok')
+            out |= sheet_rule_tags(inner, True)
+        elif rule[0] == 'media':
+            out.add('rule:media-invalid' if rule[1] is None else 'rule:media-match' if rule[1] else 'rule:media-no-match')
+            out |= sheet_rule_tags(rule[2], True)
+        elif rule[0] == 'page':
+            out.add('rule:page-bad-selector' if rule[2] is None else 'rule:page-ok')
+            if rule[4]:
+                out.add('rule:page-margin-rule')
+    return out
+
+
+def judge_sheet(meta):
+    """The clause on the real code: the stylesheet loads, and the rules it ignores leave no trace — the same
+    events come out when every ignored top-level rule is deleted from the text."""
+    import tinycss2
+    text, imports, failing = meta['css'], meta['imports'], set(meta['failing'])
+    got, exc = real_events_text(text, imports, failing)
+    if exc is not None:
+        return f'loading the stylesheet raised {type(exc).__name__}: `{text}`'
+    kept = []
+    for rule in tinycss2.parse_stylesheet(text):
+        alone, exc1 = real_events_text(tinycss2.serialize([rule]), imports, failing)
+        if exc1 is not None:
+            return f'loading the rule `{tinycss2.serialize([rule])}` raised {type(exc1).__name__}'
+        at = rule.type == 'at-rule' and rule.lower_at_keyword in ('media', 'page', 'font-face', 'counter-style',
+                                                                     'import')
+        if alone != ([], []) or at or (rule.type == 'qualified-rule'):
+            kept.append(rule)
+    again, _ = real_events_text(tinycss2.serialize(kept), imports, failing)
+    if again != got:
+        return f'deleting the ignored rules of `{text}` changes what the stylesheet contributes: {got} vs {again}'
+    return None
+
+
 # ------------------------------------------------------------------------------------------- var()
 
-VAR_NAMES = ['a', 'b', 'c', 'd', 'e']
+VAR_NAMES = ['a', 'b', 'c-d', 'd', 'e-f-g']
 
 
 def var_value_text(rng, depth, names, allow_sibling_fn):
@@ -1093,14 +1880,15 @@ def valid_declaration(rng, restrict=None):
     return 'color', 'red'
 
 
-def invalid_declaration(rng):
-    """A declaration the real funnel drops (checked), of any kind, that cannot swallow its neighbours."""
+def invalid_declaration(rng, wanted=None):
+    """A declaration the real funnel drops (checked), of any kind, that cannot swallow its neighbours.
+    `wanted`: the registered property / shorthand it should be a declaration of (systematic coverage)."""
     props, shorthands = G.all_names()
-    for _ in range(300):
+    for attempt in range(300):
         r = rng.random()
-        unknown = r < 0.2
-        name = f'unknown-prop-{rng.choice("abc")}' if unknown else rng.choice(
-            LAYOUT_PROPS if r < 0.7 else props + shorthands)
+        unknown = r < 0.2 and (wanted is None or attempt >= 60)
+        name = f'unknown-prop-{rng.choice("abc")}' if unknown else wanted if (wanted and attempt < 60) else \
+            rng.choice(LAYOUT_PROPS if r < 0.7 else props + shorthands)
         text = G.value_text(rng, name if not unknown else 'width', rng.choice(['other', 'soup', 'adversarial']))
         if any(c in text for c in ';{}\\') or 'var(' in text.lower() or '/*' in text or '"' in text or "'" in text \
                 or 'url(' in text.lower() or '!' in text or '\n' in text or '<!--' in text or '-->' in text:
@@ -1134,7 +1922,24 @@ def sec_docs(run):
                       'var() vs the substitution computed by the model; echo of the reference digest')
     rng = run.rng
     known = {}
-    # (1) invalid declarations vanish
+    # (1) invalid declarations vanish — systematically one of every registered property and shorthand
+    props_all, shorthands_all = G.all_names()
+    cycle = props_all + shorthands_all
+    rng.shuffle(cycle)
+    cursor = [0]
+    injected = set()
+
+    def next_invalid():
+        wanted = cycle[cursor[0] % len(cycle)]
+        cursor[0] += 1
+        text = invalid_declaration(rng, wanted)
+        injected.add(text.split(':')[0].strip().lower().replace('-weasy-', '').replace('-webkit-', ''))
+        return text
+    inert_rules = ['p > { color: red }', '@foo { x: y }', '@foo;', '@media !! { p { color: red; margin: 9px } }',
+                   '@page :unknown { margin: 1px }', '@import "nope.css";', '@counter-style { }', '/* c */',
+                   '.nope::foo { color: red }', ':nosuch(p) { margin: 50px }', '@supports (x: y) { p { margin: 50px } }',
+                   '@media screen { p { margin: 50px } }', '@page { colour: red; @top-left { nope: 1 } }',
+                   'p:: { margin: 50px }', '@namespace x "y";', '@font-face { }', '@keyframes k { from { top: 0 } }']
     for _ in range(run.n(100, 1500)):
         rules = []
         for _ in range(rng.choice([1, 2, 3])):
@@ -1144,11 +1949,14 @@ def sec_docs(run):
         dirty_rules = []
         for sel, decls in rules:
             decls = list(decls)
-            for _ in range(rng.choice([1, 1, 2])):
-                decls.insert(rng.randrange(len(decls) + 1), invalid_declaration(rng))
+            for _ in range(rng.choice([1, 2, 2, 3])):
+                decls.insert(rng.randrange(len(decls) + 1), next_invalid())
             dirty_rules.append(f'{sel}{{{"; ".join(decls)}}}')
         if rng.random() < 0.3:
-            dirty_rules.insert(rng.randrange(len(dirty_rules) + 1), f'{rng.choice(SELECTORS)}{{{invalid_declaration(rng)}}}')
+            dirty_rules.insert(rng.randrange(len(dirty_rules) + 1), f'{rng.choice(SELECTORS)}{{{next_invalid()}}}')
+        for _ in range(rng.choice([0, 1, 2])):
+            # an ignored rule or at-rule anywhere after the first rule (an @import would be honoured first)
+            dirty_rules.insert(rng.randrange(1, len(dirty_rules) + 1), rng.choice(inert_rules))
         dirty = ''.join(dirty_rules)
         want, exc0 = render_fp(clean)
         got, exc = render_fp(dirty)
@@ -1158,6 +1966,10 @@ def sec_docs(run):
             continue
         sec.add(sx.line('echo', want), got, meta={'kind': 'invalid-vanish', 'clean': clean, 'dirty': dirty},
                 tags=['invalid-vanish'])
+    registered = set(cycle)
+    run.extra['invalid_vanish_names_injected'] = len(injected & registered)
+    run.extra['invalid_vanish_names_registered'] = len(registered)
+    run.extra['invalid_vanish_names_never_injected'] = sorted(registered - injected)[:40]
     # (2) units
     conversions = [('in', 1), ('pt', 72), ('pc', 6), ('cm', Fraction(254, 100)), ('mm', Fraction(254, 10)),
                    ('q', Fraction(1016, 10)), ('px', 96)]
@@ -1389,9 +2201,12 @@ def var_doc_case(rng):
     prop, value_pool = rng.choice([
         ('width', ['10px', '50%', '5em']), ('margin-left', ['3px', '1em', '0']), ('color', ['red', 'blue']),
         ('padding', ['1px', '2px 4px', '1px 2px 3px']), ('border', ['1px solid', 'thick', '2px dotted red']),
-        ('font-size', ['10px', '20px']), ('transform', ['translate(10px, 5px)', 'rotate(10deg)'])])
+        ('font-size', ['10px', '20px']), ('transform', ['translate(10px, 5px)', 'rotate(10deg)']),
+        ('font-family', ['serif', 'Arial', 'monospace']), ('border-spacing', ['1px', '3px']),
+        ('text-decoration-line', ['underline', 'overline'])])
+    multi = {'font-family': ', ', 'border-spacing': ' ', 'text-decoration-line': ' ', 'padding': ' '}
     env = {}
-    names = ['a', 'b', 'c']
+    names = ['a', 'b-x', 'c']
     for i, name in enumerate(names):
         if rng.random() < 0.25:
             continue
@@ -1407,6 +2222,12 @@ def var_doc_case(rng):
         value = f'var(--{ref}, {rng.choice(value_pool)})'
     else:
         value = f'var(--{ref})'
+    if prop in multi and rng.random() < 0.6:
+        # var() after a plain first component of a multi-token value
+        first = {'font-family': 'fantasy', 'border-spacing': '2px', 'text-decoration-line': 'line-through',
+                 'padding': '5px'}[prop]
+        if prop != 'padding' or all(' ' not in v for v in env.values()):
+            value = f'{first}{multi[prop]}{value}'
     style, env_wire = real_style(env)
     tokens = tokens_of(value)
     return {'env': env, 'prop': prop, 'value': value, 'sel': rng.choice(['.p', '.a', 'li']),
@@ -1469,7 +2290,28 @@ def render_raises(css, cls):
     return False
 
 
+def replay_var_shorthand_partial():
+    from weasyprint.formatting_structure import boxes
+
+    def margins(css):
+        document = docs.render(f'<style>body{{margin:0}}{css}</style><p>x</p>')
+        for box in document.pages[0]._page_box.descendants():
+            if box.element_tag == 'p' and isinstance(box, boxes.BlockBox):
+                return (box.margin_top, box.margin_right, box.margin_bottom, box.margin_left)
+    return margins('p{margin:0;--a:7px red;margin:var(--a)}') != margins('p{margin:0;margin:7px red}')
+
+
+def replay_flex_float_zero():
+    a, b = expansion_dict('flex', tokens_of('0.0')), expansion_dict('flex', tokens_of('0'))
+    return isinstance(a, dict) and isinstance(b, dict) and a['flex-grow'] != b['flex-grow']
+
+
 FINDING_REPLAYS = {
+    'font-face-src-format-indexerror': lambda: render_raises(
+        '@font-face { font-family: x; src: format("woff") }', 'IndexError'),
+    'counter-style-system-empty-indexerror': lambda: render_raises('@counter-style a { system: ; }', 'IndexError'),
+    'flex-float-zero-as-basis': replay_flex_float_zero,
+    'var-shorthand-partially-applied': replay_var_shorthand_partial,
     'var-inherit-on-root-typeerror': lambda: render_raises('html{--a:inherit;width:var(--a)}', 'TypeError'),
     'var-self-cycle-recursion': replay_var_self_cycle,
     'var-fallback-commas-dropped': replay_var_fallback_commas,
@@ -1511,7 +2353,9 @@ def judge_expander(key, css):
         return None
     kind, result, exc = real.outcome_list(lambda: expanders.EXPANDERS[key](tokens, key, BASE_URL))
     if kind != 'ok':
-        if result == 'invalid' or known_crash(exc):
+        if result == 'invalid':
+            return judge_permutations(key, tokens, css) or judge_reference(key, tokens, css)
+        if known_crash(exc):
             return None
         return f'{key}: {css} raised {result} (only InvalidValues is funnelled)'
     names = [n for n, _ in result]
@@ -1545,7 +2389,7 @@ def judge_expander(key, css):
             if not given and len(tokens) < 3 and value != 'initial':
                 return (f'{key}: {css} gives {long_name} the value {real.canon(value)} although no component of '
                         f'the value is a {long_name}: omitted longhands must be reset to initial')
-    what = judge_permutations(key, tokens, css)
+    what = judge_permutations(key, tokens, css) or judge_reference(key, tokens, css)
     if what:
         return what
     if key == 'border-radius' and real.head_of(tokens) == 'plain':
@@ -1650,6 +2494,127 @@ def judge_shorthand_longhands(key, css):
     if a != b and not known_crash(exc):
         return f'`{key}: {css}` does not render like its longhands `{longhands}` ({a} vs {b})'
     return None
+
+
+def reference_flex(tokens):
+    """css-flexbox-1 §7.1: none | [ <flex-grow> <flex-shrink>? || <flex-basis> ]; a unitless zero not preceded by two
+    flex factors is a flex factor; omitted grow/shrink are 1, omitted basis is 0.  -> dict of canonical values | None"""
+    _, utils, _, _, properties = real.mods()
+    if utils.get_single_keyword(tokens) == 'none':
+        return {'flex-grow': real.canon(0), 'flex-shrink': real.canon(0), 'flex-basis': real.canon('auto')}
+    factors, basis = [], None
+    for i, t in enumerate(tokens):
+        is_number = t.type == 'number'
+        if is_number and (len(factors) < 2):
+            # (the engine also takes `1 10px 2`, with the basis between the factors: accepted with that meaning)
+            if properties.flex_grow_shrink([t]) is None:
+                return None
+            factors.append((i, t))
+        elif basis is None and properties.flex_basis([t]) is not None:
+            basis = (i, t)
+        else:
+            return None
+    grow = properties.flex_grow_shrink([factors[0][1]]) if factors else 1
+    shrink = properties.flex_grow_shrink([factors[1][1]]) if len(factors) > 1 else 1
+    from weasyprint.css.properties import Dimension
+    return {'flex-grow': real.canon(grow), 'flex-shrink': real.canon(shrink),
+            'flex-basis': real.canon(properties.flex_basis([basis[1]]) if basis else Dimension(0, 'px'))}
+
+
+def reference_font(tokens):
+    """css-fonts-3 §3.7: [ [ style || variant-caps || weight || stretch ]? size [ / line-height ]? family ];
+    `normal` may stand for any of the four.  -> dict of canonical values ('kw:initial' for omitted) | None"""
+    _, utils, _, _, properties = real.mods()
+    optional = [('font-style', properties.font_style), ('font-variant-caps', properties.font_variant_caps),
+                ('font-weight', properties.font_weight), ('font-stretch', properties.font_stretch)]
+    out, i, used = {}, 0, 0
+    while i < len(tokens) and used < 4:
+        t = tokens[i]
+        if utils.get_keyword(t) == 'normal':
+            i += 1
+            used += 1
+            continue
+        for name, fn in optional:
+            value = fn([t])
+            if value is not None:
+                if name in out:
+                    return None
+                out[name] = real.canon(value)
+                break
+        else:
+            break
+        i += 1
+        used += 1
+    if i >= len(tokens) or properties.font_size([tokens[i]]) is None:
+        return None
+    out['font-size'] = real.canon(properties.font_size([tokens[i]]))
+    i += 1
+    if i < len(tokens) and tokens[i].type == 'literal' and tokens[i].value == '/':
+        if i + 1 >= len(tokens) or properties.line_height([tokens[i + 1]]) is None:
+            return None
+        out['line-height'] = real.canon(properties.line_height([tokens[i + 1]]))
+        i += 2
+    family = properties.font_family(tokens[i:]) if i < len(tokens) else None
+    if family is None:
+        return None
+    out['font-family'] = real.canon(family)
+    for name in ('font-style', 'font-variant-caps', 'font-weight', 'font-stretch', 'line-height'):
+        out.setdefault(name, 'kw:initial')
+    return out
+
+
+def reference_grid_lines(key, tokens):
+    """css-grid-1 §8.4: omitted lines default to the line they pair with when that is a custom identifier, else
+    auto.  -> dict | None"""
+    _, _, _, _, properties = real.mods()
+    parts = split_slash_ids(tokens)
+    names = {'grid-row': ['grid-row-start', 'grid-row-end'], 'grid-column': ['grid-column-start', 'grid-column-end'],
+             'grid-area': ['grid-row-start', 'grid-column-start', 'grid-row-end', 'grid-column-end']}[key]
+    if not 1 <= len(parts) <= len(names):
+        return None
+    values = []
+    for part in parts:
+        v = properties.grid_line(part)
+        if not v:
+            return None
+        values.append(v)
+
+    def dflt(v):
+        return v if (isinstance(v, tuple) and v[0] is None and v[1] is None) else 'auto'
+    if key == 'grid-area':
+        rs = values[0]
+        cs = values[1] if len(values) > 1 else dflt(rs)
+        re_ = values[2] if len(values) > 2 else dflt(rs)
+        ce = values[3] if len(values) > 3 else dflt(cs)
+        full = [rs, cs, re_, ce]
+    else:
+        full = [values[0], values[1] if len(values) > 1 else dflt(values[0])]
+    return {n: real.canon(v) for n, v in zip(names, full)}
+
+
+REFERENCES = {'flex': reference_flex, 'font': reference_font, 'grid-row': reference_grid_lines,
+              'grid-column': reference_grid_lines, 'grid-area': reference_grid_lines}
+
+
+def judge_reference(key, tokens, css):
+    """The registered expander against an independent statement of the CSS grammar of the shorthand."""
+    if key not in REFERENCES or real.head_of(tokens) != 'plain':
+        return None
+    if key == 'flex' and any(t.type == 'number' and t.value == 0 and t.int_value != 0 for t in tokens):
+        return None      # known finding flex-float-zero-as-basis (`0.0`, `1e-999`)
+    try:
+        want = REFERENCES[key](tokens) if key in ('flex', 'font') else REFERENCES[key](key, tokens)
+    except Exception:  # noqa: BLE001 - a helper validator crashed: not this oracle's business
+        return None
+    got = expansion_dict(key, tokens)
+    if isinstance(got, str) and got.startswith('err'):
+        return None
+    if want is None and isinstance(got, dict):
+        return f'`{key}: {css}` is accepted as {got} although it is not in the grammar of {key}'
+    if want is not None and got != want:
+        return f'`{key}: {css}` expands to {got}, the grammar of {key} gives {want}'
+    return None
+
 
 
 def fill4(values):
@@ -1823,7 +2788,8 @@ def reference_substitution(tokens, env, depth):
 class C07(PropCheck):
     id = 'C07'
     extractors = (c07_tables.generate,)
-    modules = ('WpModel.Props.C07', 'WpModel.Witness.C07')
+    modules = ('WpModel.Props.C07', 'WpModel.Props.C07Expanders', 'WpModel.Props.C07Var', 'WpModel.Props.C07Sheet',
+               'WpModel.Props.C07Keywords', 'WpModel.Props.C07Descriptors', 'WpModel.Witness.C07')
     trusted_base = (
         'modelled, not verified: preprocess_declarations (loop skeleton), generic_expander, expand_four_sides, '
         'border_radius, expand_border(_side), expand_list_style and nine small expanders, validate_non_shorthand '
@@ -1837,6 +2803,43 @@ class C07(PropCheck):
         'Python recursion depth is modelled by fuel: the model answers RecursionError exactly when its fuel runs out',
     )
 
+    EXPECTED_TAGS = {
+        'registry': ['skip', 'kept', 'rewritten'],
+        'funnel': ['all-dropped', 'some-kept'],
+        'funnel-neighbours': ['singletons', 'prelude'],
+        'generic-expander': ['head:plain', 'head:var', 'head:initial', 'head:inherit', 'ok', 'invalid'],
+        'four-sides': ['n0', 'n1', 'n2', 'n3', 'n4', 'n5', 'n6', 'names', 'ok', 'invalid'],
+        'border-radius': ['slash', 'no-slash', 'ok', 'invalid'],
+        'border-side': ['n1', 'n2', 'n3', 'n4', 'ok', 'invalid'],
+        'list-style': ['none0', 'none1', 'none2', 'none3', 'ok', 'invalid'],
+        'small-expanders': [f'{k}:{o}' for k in ('text-decoration', 'columns', 'flex-flow', 'gap', 'grid-gap', 'word-wrap',
+                                                 'grid-column-gap', 'grid-row-gap', 'page-break-inside',
+                                                 'page-break-before', 'page-break-after', 'text-align')
+                            for o in ('ok', 'invalid')],
+        'more-expanders': [f'{k}:{o}' for k in ('line-clamp', 'flex', 'font', 'grid-row', 'grid-column', 'grid-area',
+                                                'grid-template', 'grid') for o in ('ok', 'invalid')] +
+                          ['place-content:invalid', 'place-items:invalid', 'place-self:invalid'],
+        'border-image': ['border-image:ok', 'border-image:invalid', 'mask-border:ok', 'mask-border:invalid'],
+        'background': ['ok', 'invalid', 'layers1', 'layers2', 'layers3'],
+        'pending-expander': ['ok', 'invalid', 'partially-applied'],
+        'validate-non-shorthand': ['ok', 'invalid', 'err:KeyError'],
+        'get-length': ['number', 'dimension', 'percentage', 'accepted', 'rejected'],
+        'length-pipeline': ['rejected', 'dim'],
+        'computed-pending': list(PENDING_CASES) + ['inherited', 'not-inherited', 'specified', 'parent', 'initial',
+                                                   'err'],
+        'sheet-funnel': ['probe-imported', 'probe-ignored', 'rule:no-content', 'rule:font-face', 'rule:other-at',
+                         'rule:counter-style-ok', 'rule:counter-style-bad-name', 'rule:style-bad-selector',
+                         'rule:style-no-declaration', 'rule:style-unknown-pseudo', 'rule:style-ok',
+                         'rule:import-unusable', 'rule:import-fetch-failed', 'rule:import-ok', 'rule:media-invalid',
+                         'rule:media-match', 'rule:media-no-match', 'rule:page-bad-selector', 'rule:page-ok',
+                         'rule:page-margin-rule'],
+        'keyword-validators': ['single', 'comma-list', 'ok', 'invalid'],
+        'descriptor-funnel': ['font-face', 'counter-style', 'kept', 'all-dropped', 'font-variant:ok',
+                              'font-variant:invalid'],
+        'var': ['acyclic-env', 'cyclic-env', 'check-var', 'parse-function', 'none', 'ok', 'err:RecursionError'],
+        'documents': ['invalid-vanish', 'units', 'var', 'var-invalid', 'unit-spelling:kept', 'unit-spelling:dropped'],
+    }
+
     def correspondence(self, run):
         docs.quiet()
         sec_units(run)
@@ -1848,11 +2851,31 @@ class C07(PropCheck):
         sec_border_side(run)
         sec_list_style(run)
         sec_small_expanders(run)
+        sec_more_expanders(run)
+        sec_border_image(run)
+        sec_background(run)
+        sec_pending_expander(run)
         sec_vns(run)
         sec_lengths(run)
         sec_pending(run)
+        sec_sheet(run)
+        sec_keywords(run)
+        sec_descriptors(run)
         sec_var(run)
         sec_docs(run)
+        never = {}
+        for sec in run.sections:
+            missing = [t for t in self.EXPECTED_TAGS.get(sec.name, []) if not sec.tags.get(t)]
+            if missing:
+                never[sec.name] = missing
+        run.extra['branches_never_hit'] = never
+        run.extra['branch_tags_expected'] = sum(len(v) for v in self.EXPECTED_TAGS.values())
+        _, _, _, expanders, _ = real.mods()
+        run.extra['expander_coverage'] = {
+            'registered_keys': len(expanders.EXPANDERS),
+            'functions': sorted({f.__name__ for f in expanders.EXPANDERS.values()}),
+            'generator_modelled': 'all (Props/C07Expanders.lean all_expanders_modelled, decided on the generated registry)',
+        }
 
     def judge(self, d):
         section, meta = d['section'], d.get('meta') or {}
@@ -1866,6 +2889,10 @@ class C07(PropCheck):
             return judge_expander('list-style', meta['css'])
         if section == 'units':
             return judge_units()
+        if section == 'descriptor-funnel' and 'rule' in meta:
+            return judge_descriptors(meta)
+        if section == 'sheet-funnel':
+            return judge_sheet(meta)
         if section == 'length-pipeline':
             return judge_length_declaration(meta['name'], meta['css'])
         if section == 'get-length':
@@ -2089,27 +3116,35 @@ PROP = C07()
 
 MANIFEST = {
     'design_ref': 'DESIGN.md §4 C07',
-    'technique': 'Lean 4 theorems over hand-written models of the declaration funnel, generic_expander, the 1-to-4 '
-                 'value shorthands, border / list-style / nine small expanders, validate_non_shorthand, the unit table '
-                 '(regenerated from css/utils.py as exact rationals) and var() resolution; registries (EXPANDERS, '
-                 'generic_expander names, PROPERTIES, NOT_PRINT_MEDIA, prefixes) regenerated from the source and the '
-                 'runtime each run; executable correspondence with the real functions on every registered property and '
-                 'shorthand, plus rendered metamorphic document pairs',
-    'text': 'Proved for all inputs on the model: dropped declarations do not change the output of the funnel, outputs '
-            'concatenate (neighbour independence), the funnel only propagates non-InvalidValues exceptions of '
-            'validators; the 1/2/3/4-value side and corner mappings (four sides, border-radius around "/"); a generic '
+    'technique': 'Lean 4 theorems over hand-written models of the declaration funnel, the descriptor funnel, the '
+                 'rule-level funnel of preprocess_stylesheet, generic_expander and the generator of every one of the 42 '
+                 'registered shorthand expanders, validate_non_shorthand, PendingExpander, the value selection of '
+                 'ComputedStyle.__missing__, get_length / length with the unit table (exact rationals regenerated from '
+                 'css/utils.py), the keyword-only validators (table regenerated by AST) and var() resolution; '
+                 'registries (EXPANDERS, generic_expander names, PROPERTIES, DESCRIPTORS, INHERITED, NOT_PRINT_MEDIA, '
+                 'prefixes) regenerated from the source and the runtime each run; executable correspondence with the '
+                 'real functions on every registered property, shorthand and descriptor, plus rendered metamorphic '
+                 'document pairs with an invalid declaration of every registered name injected',
+    'text': 'Proved for all inputs on the models: dropped declarations / descriptors / rules do not change the output '
+            'of their funnel, outputs concatenate (neighbour independence), the funnels only propagate '
+            'non-InvalidValues exceptions of validators; the 1/2/3/4-value side and corner mappings; a generic '
             'shorthand yields exactly its declared longhands once each in order, omitted ones reset to initial, a '
-            'duplicate is invalid, inherit/initial/var() fan out; every longhand a registered shorthand can name is '
-            'a registered property (decide on generated tables); border-side components commute under any '
-            'permutation; border = four border-sides; list-style none disambiguation; 1in = 96px = 72pt = 6pc = '
-            '2.54cm = 25.4mm = 101.6q for every rational length and equal absolute lengths compute equal; runtime '
-            'floats within 2^-52 of the exact factors; var(): whenever resolve_var returns it returns the '
-            'substitution (var_subst_partial), which is the textual substitution for well-formed var() with '
-            'comma-free fallbacks (var_subst). The per-property validators are sampled only.',
+            'duplicate is invalid, inherit/initial/var() fan out; every registered expander is modelled and every '
+            'longhand it can name is registered (decide on generated tables); order independence of border-side '
+            'components, of the two columns / flex-flow components, of the optional font prefix, of the flex basis; '
+            'border = four border-sides; list-style none disambiguation; flex, line-clamp, grid-row/column/area, '
+            'grid-template characterisations; the keywords expanders synthesise are valid for their target longhand; '
+            '1in = 96px = 72pt = 6pc = 2.54cm = 25.4mm = 101.6q for every rational length, equal absolute lengths '
+            'compute equal, an accepted length always computes to px; a var() value invalid after substitution '
+            'behaves as an absent declaration; var(): resolve_var terminates on acyclic custom properties and returns '
+            'the textual substitution for well-formed var() with comma-free fallbacks (var_subst_total); a shorthand '
+            'with var() gives each longhand the value of the substituted shorthand when that expansion succeeds.',
     'note': 'Trusted: Lean kernel, py/extract/c07_tables.py, the harness abstraction of tokens to the answers of the '
-            'real single-token validators. Partial: the ~2000 lines of validators are tied only by the run-time '
-            'funnel check (return or raise InvalidValues, neighbour independence observed); var() inside ( ) [ ] '
-            'blocks and inside functions with empty arguments is invisible to the code and the model alike; '
-            'termination of resolve_var on acyclic environments is not proved (fuel). Known findings: var() '
-            'self-cycle (RecursionError, F7) and the commas dropped from var() fallbacks.',
+            'real single-token / slice validators. Partial: of the 133 validator functions only the 50 keyword-only '
+            'properties, get_length and border_corner_radius are mirrored, the others are tied by the run-time funnel '
+            'checks; var() inside ( ) [ ] blocks and inside functions with empty arguments is invisible to the code and '
+            'the model alike; CSS nesting (style rules inside style rules) is outside the rule-level model. Known '
+            'findings: var() self-cycle (RecursionError), commas dropped from var() fallbacks, inherit out of a var() '
+            'on the root (TypeError), a shorthand invalid after substitution applied in part, flex: 0.0 read as a '
+            'basis, @font-face src: format() and @counter-style system: (empty) IndexError.',
 }
